@@ -33,6 +33,18 @@ that parameter: a call inside the anchors that resolves to one of them -  Name(.
 (keyword, or the positional slot of the definition) with a gen/val value: Pass.  A call that omits it, or passes None, lets the callee
 fall back to check_random_state(None) = numpy's GLOBAL generator: PassFresh.  **kwargs is accepted only for self._opt_kwargs (whose
 dict(...) literal is itself a listed Pass site); any other shape fails closed.
+Generators under Parallel.  Tasks built with delayed(f)(...) inside Parallel(...)(...) may run concurrently: a generator expression handed to
+a task (anywhere in its arguments) must be a PER-TASK generator, i.e. a constructor call written in the task's argument list
+(np.random.RandomState(child_seed)), or a child seed.  A shared generator (self.rng, a local rng) handed to the tasks of a
+Parallel(require="sharedmem") / threading pool is classified PassShared: the thread schedule decides which task gets which slice of the stream.
+Without shared memory the tasks receive pickled copies (or run sequentially for n_jobs=1): Pass.  Parallel(...)(x) with x not a
+comprehension of delayed calls fails closed.
+
+State shared with the caller (environment kind SharedState).  The attributes through which ConfigSpace generators are reached
+(self._problem, self.space, self.config_space: the first attribute of every cs-root) hold objects that carry RNG state.  Every assignment
+self.<attr> = <value> to one of them is listed: value copy.deepcopy(<parameter>) = Owned (benign); any other value that involves a
+parameter of the function (the parameter itself, copy.copy(parameter), a wrapper built from it) = Flows: the object is shared with whoever
+passed it, so another search built from the same object draws from / reseeds the same generator; other shapes fail closed.
   optimizer-valued := self inside a class that defines copy(random_state) | a call of such a class | <optimizer-valued>.copy(...) |
                       a local all of whose assignments are optimizer-valued | an attribute an anchor assigns an optimizer-valued expression to
 """
@@ -43,9 +55,9 @@ ANCHORS = [
     "hpo/_search.py", "hpo/_cbo.py", "hpo/_random.py", "hpo/_regevo.py", "skopt/optimizer/optimizer.py",
     "skopt/space/space.py", "skopt/acquisition.py", "skopt/moo/_multiobjective.py",
 ]
-CLASSES = ["Seeded", "Global", "CtorSeeded", "CtorFresh", "Dist", "CS", "CSSeed", "Ext", "Pass", "PassFresh"]
-ENV_KINDS = ["SetOrder", "Hash", "Id", "Listing", "Clock", "Pid", "Entropy"]
-FLOWS = ["LogOnly", "PathOnly", "Flows"]
+CLASSES = ["Seeded", "Global", "CtorSeeded", "CtorFresh", "Dist", "CS", "CSSeed", "Ext", "Pass", "PassFresh", "PassShared"]
+ENV_KINDS = ["SetOrder", "Hash", "Id", "Listing", "Clock", "Pid", "Entropy", "SharedState"]
+FLOWS = ["LogOnly", "PathOnly", "Flows", "Owned"]
 
 RNG_METHODS = {
     "rvs", "randint", "rand", "randn", "random", "random_sample", "ranf", "sample", "choice", "choices", "shuffle", "permutation", "permuted",
@@ -388,6 +400,88 @@ class FileWalk:
                 return cands[0]
         return None
 
+    # ---------- Parallel ----------
+    def parallel_of(self, c):
+        """If c is a task  delayed(f)(...)  of a  Parallel(...)(<comprehension>) : 'sharedmem' (threads share the arguments) or 'copies'; else None."""
+        if not (isinstance(c.func, ast.Call) and dotted(c.func.func).split(".")[-1] == "delayed"):
+            return None
+        n = c
+        while n in self.parent:
+            p = self.parent[n]
+            if isinstance(p, ast.Call) and isinstance(p.func, ast.Call) and dotted(p.func.func).split(".")[-1] == "Parallel" and n in p.args:
+                kws = {k.arg: k.value for k in p.func.keywords if k.arg}
+                vals = {k: (v.value if isinstance(v, ast.Constant) else None) for k, v in kws.items()}
+                if vals.get("require") == "sharedmem" or vals.get("backend") == "threading" or vals.get("prefer") == "threads":
+                    return "sharedmem"
+                for k in ("require", "backend", "prefer"):
+                    if k in kws and vals.get(k) is None:
+                        raise Closed("Parallel(%s=<not a literal>)" % k)
+                return "copies"
+            if isinstance(p, ast.stmt):
+                return None
+            n = p
+        return None
+
+    def shared_generators_in(self, c, fn):
+        """Generator expressions (kind gen) among the arguments of a task that are not constructor calls written in place."""
+        out = []
+
+        def visit(e):
+            if isinstance(e, ast.Call) and self.fq(dotted(e.func)) in CTOR_NAMES:
+                return                                   # a per-task generator
+            if isinstance(e, (ast.Name, ast.Attribute)) and self.kind(e, fn) == "gen":
+                out.append(ast.unparse(e))
+                return
+            for ch in ast.iter_child_nodes(e):
+                visit(ch)
+
+        for a in c.args:
+            visit(a)
+        for k in c.keywords:
+            visit(k.value)
+        return out
+
+    def check_parallel_shapes(self):
+        for n in ast.walk(self.tree):
+            if isinstance(n, ast.Call) and isinstance(n.func, ast.Call) and dotted(n.func.func).split(".")[-1] == "Parallel":
+                ok = len(n.args) == 1 and isinstance(n.args[0], (ast.GeneratorExp, ast.ListComp)) and isinstance(n.args[0].elt, ast.Call) \
+                    and isinstance(n.args[0].elt.func, ast.Call) and dotted(n.args[0].elt.func.func).split(".")[-1] == "delayed"
+                if not ok:
+                    raise Closed("%s:%d: Parallel(...)(x) with x not a comprehension of delayed(f)(...) calls" % (self.rel, n.lineno))
+
+    # ---------- state shared with the caller ----------
+    def state_attrs(self):
+        out = set()
+        for n in ast.walk(self.tree):
+            if isinstance(n, ast.Attribute):
+                d = dotted(n)
+                if (d.endswith(".config_space") or d.endswith("._problem.space")) and d.startswith("self."):
+                    out.add(d.split(".")[1])
+        return out
+
+    def shared_state_sites(self, attrs):
+        for n in ast.walk(self.tree):
+            if not (isinstance(n, ast.Assign) and len(n.targets) == 1):
+                continue
+            t = n.targets[0]
+            if not (isinstance(t, ast.Attribute) and isinstance(t.value, ast.Name) and t.value.id == "self" and t.attr in attrs):
+                continue
+            fn = self.inner_function(n)
+            params = (self.params_of(fn) - {"self"}) if fn is not None else set()
+            v = n.value
+            involved = sorted({x.id for x in ast.walk(v) if isinstance(x, ast.Name) and x.id in params})
+            qn, _ = self.scope_of(n)
+            if isinstance(v, ast.Call) and self.fq(dotted(v.func)) == "copy.deepcopy" and len(v.args) == 1 and isinstance(v.args[0], ast.Name) and v.args[0].id in params:
+                flow, what = "Owned", "copy.deepcopy"
+            elif involved:
+                flow = "Flows"
+                what = dotted(v.func) if isinstance(v, ast.Call) else ast.unparse(v)[:40]
+            elif isinstance(v, ast.Constant) or (isinstance(v, ast.Call) and not any(isinstance(x, ast.Attribute) and isinstance(x.value, ast.Name) and x.value.id == "self" for x in ast.walk(v))):
+                continue                                  # a fresh object / None
+            else:
+                raise Closed("%s:%d: self.%s = <value of unknown ownership>: %s" % (self.rel, n.lineno, t.attr, ast.unparse(v)[:80]))
+            self.env_sites.append(dict(file=self.rel, line=n.lineno, end=n.end_lineno, func=qn, callee="self.%s=%s" % (t.attr, what), kind="SharedState", flow=flow, guard=self.guard_of(n)))
+
     # ---------- rng sites ----------
     def classify_call(self, c):
         """-> classification or None (not an rng site).  Raises Closed on an rng-looking call it cannot classify."""
@@ -448,6 +542,12 @@ class FileWalk:
                     return None
                 raise Closed("random method on a receiver of unknown origin")
             raise Closed("random method on a receiver of unknown origin")
+        # ---- tasks of a Parallel(...)( delayed(f)(...) for ... ): generators handed to the tasks
+        par = self.parallel_of(c)
+        if par is not None:
+            shared = self.shared_generators_in(c, fn)
+            if shared:
+                return "PassShared" if par == "sharedmem" else "Pass"
         # ---- hand-over obligations: does the call resolve to a definition of the anchors that takes random_state / rng / seed ?
         target = self.resolve_obligation(c, fn)
         supplied = list(seedkw.values())
@@ -555,6 +655,8 @@ class FileWalk:
         for c in ast.walk(self.tree):
             if isinstance(c, ast.Call):
                 d = dotted(c.func)
+                if isinstance(c.func, ast.Call) and dotted(c.func.func).split(".")[-1] == "delayed" and len(c.func.args) == 1:
+                    d = "delayed(%s)" % dotted(c.func.args[0])
                 qn, _ = self.scope_of(c)
                 try:
                     cls = self.classify_call(c)
@@ -697,6 +799,10 @@ def analyse(repo):
             pre.append((rel, fw.tree, fw.alias))
         attrs = find_rng_attrs(pre)
         out["rng_attrs"] = attrs
+        st_attrs = set()
+        for rel, src in srcs:
+            st_attrs |= FileWalk(rel, src, set(), setm).state_attrs()
+        out["state_attrs"] = sorted(st_attrs)
         defs = collect_defs(pre)
         opt_attrs = find_opt_attrs(pre, defs)
         ex = extra_facts(base)
@@ -705,7 +811,9 @@ def analyse(repo):
         out["optimizer_attrs"] = sorted(opt_attrs)
         for rel, src in srcs:
             fw = FileWalk(rel, src, set(attrs), setm, defs, opt_attrs)
+            fw.check_parallel_shapes()
             fw.walk()
+            fw.shared_state_sites(st_attrs)
             out["rng_sites"] += fw.rng_sites
             out["env_sites"] += fw.env_sites
         out["rng_sites"].sort(key=lambda s: (ANCHORS.index(s["file"]), s["line"], s["callee"]))
@@ -767,7 +875,7 @@ if __name__ == "__main__":
     r = analyse(sys.argv[1] if len(sys.argv) > 1 else "/repo")
     print("ok", r["ok"], r["reason"])
     print("rng_attrs", r["rng_attrs"])
-    print("obligation defs", r.get("obligation_defs"), r.get("optimizer_attrs"))
+    print("obligation defs", r.get("obligation_defs"), r.get("optimizer_attrs"), "state attrs", r.get("state_attrs"))
     for s in r["rng_sites"]:
         print("%-30s %4d %-34s %-44s %-10s %s" % (s["file"], s["line"], s["func"], s["callee"], s["cls"], s["guard"][:60]))
     print()
